@@ -326,6 +326,16 @@ def oracle(case, R):
     tsu = ode.SolveUnc(M_in, B_in, K_in, h, **kw)
     sols["su"] = tsu.tsolve(F_call, d0_in, v0_in, static_ic=static_ic)
     R.label("su_unc" if tsu.unc else "su_coupled")
+    # a solver object is reusable: a second, different load case on the SAME instances equals the answer of
+    # fresh instances (no state may leak from one solve into the next)
+    if case.get("reuse"):
+        F2 = np.asarray(F_in, float)[:, ::-1] * 0.5 + 1.0
+        for nm_, old_, cls_ in (("SolveExp2", ts2, ode.SolveExp2), ("SolveUnc", tsu, ode.SolveUnc)):
+            again = old_.tsolve(F2, d0_in, v0_in, static_ic=static_ic)
+            fresh = cls_(M_in, B_in, K_in, h, **kw).tsolve(F2, d0_in, v0_in, static_ic=static_ic)
+            R.check(all(np.array_equal(getattr(again, q_), getattr(fresh, q_)) for q_ in "dva"),
+                    f"{nm_}_second_solve_differs_from_fresh_instance")
+        R.label("reuse")
     if tsu.unc and any(md["reg"] == "slow" for md in case["modes"]):
         R.label("out_of_domain:undeclared_zero_stiffness_mode_on_uncoupled_path")
     elif tsu.unc and tsu.systype is float:
@@ -472,7 +482,7 @@ def cases(draw, form):
             "fscale": fscale, "icscale": draw(st.sampled_from([1.0, 1e-2])),
             "f0zero": draw(st.booleans()), "cpl": draw(st.sampled_from([0.05, 0.3, 0.8])),
             "physnonprop": form == "physical" and draw(st.booleans()),
-            "fpack": draw(st.sampled_from(util.PACKS))}
+            "fpack": draw(st.sampled_from(util.PACKS)), "reuse": draw(st.integers(0, 2)) == 0}
 
 
 def enum_rbd(shard, nshards, tier):
